@@ -30,7 +30,8 @@ uint64_t       nondet_u64 (void) ;
 float          nondet_float (void) ;
 double         nondet_double (void) ;
 /* fill an array whose name starts with nd_ with fresh symbolic values */
-#define ND_FILL(arr, n, T)	do { int nd_i_ ; for (nd_i_ = 0 ; nd_i_ < (int) (n) ; nd_i_ ++) (arr) [nd_i_] = nondet_ ## T () ; } while (0)
+#define ND_FILL_(arr, n, T)	do { int nd_i_ ; for (nd_i_ = 0 ; nd_i_ < (int) (n) ; nd_i_ ++) (arr) [nd_i_] = nondet_ ## T () ; } while (0)
+#define ND_FILL(arr, n, T)	ND_FILL_ (arr, n, T)	/* (T may itself be a macro) */
 #else
 /* REPLAY: values are looked up by source position (scalars: one nondet_T () per source
 ** line, FIFO per line) or by element name (ND_FILL), so values the solver sliced away
@@ -59,7 +60,8 @@ double   vf_bits2d (uint64_t b) ;
 #define VF_CONV_u64(b)		((uint64_t) (b))
 #define VF_CONV_float(b)	(vf_bits2f (b))
 #define VF_CONV_double(b)	(vf_bits2d (b))
-#define ND_FILL(arr, n, T)	do { int nd_i_ ; for (nd_i_ = 0 ; nd_i_ < (int) (n) ; nd_i_ ++) (arr) [nd_i_] = VF_CONV_ ## T (vf_nd_elem (#arr, nd_i_, (int) (8 * sizeof ((arr) [0])))) ; } while (0)
+#define ND_FILL_(arr, n, T)	do { int nd_i_ ; for (nd_i_ = 0 ; nd_i_ < (int) (n) ; nd_i_ ++) (arr) [nd_i_] = VF_CONV_ ## T (vf_nd_elem (#arr, nd_i_, (int) (8 * sizeof ((arr) [0])))) ; } while (0)
+#define ND_FILL(arr, n, T)	ND_FILL_ (arr, n, T)
 #endif
 
 #if defined (__CPROVER__) || defined (VERIF_CBMC)
